@@ -4,6 +4,7 @@ import (
 	"encoding/json"
 	"fmt"
 	"math"
+	"reflect"
 	"sort"
 	"strconv"
 	"strings"
@@ -303,6 +304,8 @@ func (m *refModel) applyRef(a pt.Action, vals []interface{}, commit bool) refRes
 	for _, v := range vals {
 		if v == nil {
 			hasNil = true
+		} else if rv := reflect.ValueOf(v); rv.Kind() == reflect.Ptr && rv.IsNil() {
+			hasNil = true
 		}
 	}
 	switch a.Op {
@@ -472,7 +475,7 @@ func init() {
 
 func (m *c03Machine) Key() (string, bool) {
 	k, _ := m.w.Key()
-	return k, len(m.w.Pending(0)) > 1
+	return k, len(m.w.Pending(0)) >= 1
 }
 func (m *c03Machine) Outcome() string      { return m.last }
 func (m *c03Machine) Close() *pt.Violation { return nil }
@@ -494,6 +497,7 @@ func c03Calls(ref *refModel, alpha string) []pt.Action {
 		}
 		add(pt.Action{Op: "put", K: "", V: "p"})
 		add(pt.Action{Op: "put", K: "a", V: "nil"})
+		add(pt.Action{Op: "put", K: "a", V: "tnil"})
 		add(pt.Action{Op: "rem", K: ""})
 		if rich {
 			add(pt.Action{Op: "put", K: "a", V: "num"})
@@ -509,6 +513,7 @@ func c03Calls(ref *refModel, alpha string) []pt.Action {
 		add(pt.Action{Op: "ins1", P: -1, V: "p"})
 		add(pt.Action{Op: "ins1", P: n + 1, V: "p"})
 		add(pt.Action{Op: "ins1", P: 0, V: "nil"})
+		add(pt.Action{Op: "ins1", P: 0, V: "tnil"})
 		for _, p := range uniq(0, n-1) {
 			if p >= 0 {
 				add(pt.Action{Op: "del1", P: p})
@@ -545,6 +550,7 @@ func c03Calls(ref *refModel, alpha string) []pt.Action {
 				add(pt.Action{Op: "ddel", T: t, K: k})
 			}
 			if t == "" || rich {
+				add(pt.Action{Op: "dput", T: t, K: "a", V: "tnil"})
 				add(pt.Action{Op: "dput", T: t, K: "a", V: "nil"})
 				add(pt.Action{Op: "dins", T: t, P: 0, V: "p", N: 1}) // wrong container kind
 			}
@@ -811,7 +817,7 @@ func (m *c03Machine) Apply(a pt.Action) *pt.Violation {
 	}
 	// pending operations are numbered 1..n
 	for i, op := range m.w.Pending(0) {
-		if op.ID.Seq != uint64(i+1) {
+		if op.ID.Seq != uint64(m.w.reps[0].pushed+i+1) {
 			return viol("C03:pending-seq-gap", "pending operation %d has seq %d after %s", i, op.ID.Seq, a)
 		}
 	}
